@@ -144,7 +144,7 @@ CHECKS = {
     "C20": dict(
         level="model_checking",
         technique="TLA+ spec Collections.tla (heap of droplet/Emulsion/EmulsionTimeCourse/DropletTrack objects with explicit identity; one action per public call) model-checked by TLC over all operation sequences up to the stated depth; every transition of the state graph replayed on real objects (spec->code) with full state, aliasing and query comparison; long random operation sequences recorded from real objects and validated by TraceCollections.tla (code->spec)",
-        text="TLC explores every sequence of <=3-5 public operations (append/extend with copy and force_consistency flags, constructors, copy(min_radius), slices, +, remove_small, remove_overlapping, get_linked_data + writes through the array, writes through caller references, merge of members in place and out of place, time-course append/slice/copy/index/clear, track append/slice/copy/index, explicit and default times, track lists, to_file/from_file of all four kinds with truncation on error, DropletTrackList.from_emulsion_time_course with both methods and a cut-off) over small alphabets in seven worlds (spherical, diffuse/mixed layout, time courses, tracks, track lists, files, tracking) and checks Aligned, Owned (default-path members reachable from exactly one place), ArrShared, OrderFree (queries invariant under all permutations), TrackingConserves (for EVERY reachable time course, incl. repeated / decreasing times and empty frames, and every method the tracks hold exactly the (droplet value, time) pairs of the course as fresh objects and the input heap is untouched) and HeapGrows in every state. Every transition printed by TLC (quick: 8.6e4, thorough: >1e6) is replayed: API calls along a path to the source state, then the operation; compared are exception type, lengths, layouts (dtype slot), times, every reachable droplet value (exact rationals), the aliasing partition of all handles found by writing through each handle, and count / mean / std of radii and volumes / total volume / area-weighted interface width / bounding box / durations / trajectories / nearest-time lookup / `==` between emulsions, time courses and tracks / DropletTrack.time_overlaps against the spec's exact folds, also on the reversed emulsion, and count/mean/std/total volume against their definitions over the real members for every emulsion (mixed dimensions included). Code->spec: 48 (thorough 640) seeded random sequences of 25 (40) calls over all 36 operations are executed on real objects; each call is logged with arguments, exception and the canonical observable state (values in slot order, first slot holding the same object, layouts, times) and TLC accepts a log only if every event is a step of the spec's action with that outcome (Aligned/Owned/ArrShared checked along the way); a deliberately corrupted log must be rejected.",
+        text="TLC explores every sequence of <=3-5 public operations (append/extend with copy and force_consistency flags, constructors, copy(min_radius), slices, +, remove_small, remove_overlapping, get_linked_data + writes through the array, writes through caller references, merge of members in place and out of place, time-course append/slice/copy/index/clear, track append/slice/copy/index, explicit and default times, track lists, to_file/from_file of all four kinds with truncation on error, DropletTrackList.from_emulsion_time_course with both methods and a cut-off) over small alphabets in nine worlds (spherical, diffuse/mixed layout, two layouts of one class, time courses, tracks, track lists, files, tracking, and the pipeline images -> located emulsions / offline time courses -> tracks -> files -> reloaded objects: EmLocate, TcFromStorage) and checks Aligned, Owned (default-path members reachable from exactly one place), ArrShared, OrderFree (queries invariant under all permutations), TrackingConserves (for EVERY reachable time course, incl. repeated / decreasing times and empty frames, and every method the tracks hold exactly the (droplet value, time) pairs of the course as fresh objects and the input heap is untouched) and HeapGrows in every state. Every transition printed by TLC (quick: 8.6e4, thorough: >1e6) is replayed: API calls along a path to the source state, then the operation; compared are exception type, lengths, layouts (dtype slot), times, every reachable droplet value (exact rationals), the aliasing partition of all handles found by writing through each handle, and count / mean / std of radii and volumes / total volume / area-weighted interface width / bounding box / durations / trajectories / nearest-time lookup / `==` between emulsions, time courses and tracks / DropletTrack.time_overlaps against the spec's exact folds, also on the reversed emulsion, and count/mean/std/total volume against their definitions over the real members for every emulsion (mixed dimensions included). Code->spec: 48 (thorough 640) seeded random sequences of 25 (40) calls over all 38 operations are executed on real objects; each call is logged with arguments, exception and the canonical observable state (values in slot order, first slot holding the same object, layouts, times) and TLC accepts a log only if every event is a step of the spec's action with that outcome (Aligned/Owned/ArrShared checked along the way); a deliberately corrupted log must be rejected.",
         note="Trusted: TLC; the projection in harness/c20.py. Bounded: exhaustive up to depth 3-5 over the stated alphabets; 1-D geometry with rational coordinates (2-D droplets occur only as wrong-layout members). Non-default paths (copy=False duplicates + get_linked_data) are modelled as the code behaves. Found and repaired F10 (merge after get_linked_data raised).",
         ref="§3 C20",
     ),
